@@ -104,10 +104,12 @@ def gen(seed, n_expr):
     n_done = 0
     while n_done < n_expr and tries < 20 * n_expr + 100:
         tries += 1
-        kind = rng.choice(["plain"] * 6 + ["quirk", "builder", "builder", "wrapped"])
+        kind = rng.choice(["plain"] * 5 + ["shadow"] * 3 + ["quirk", "builder", "builder", "wrapped"])
         try:
             if kind == "builder":
                 e = M.gen_builder_nest(rng)
+            elif kind == "shadow":
+                e = M.gen_shadow_nest(rng)
             else:
                 e = M.gen_poolsum(rng, [], M.FREE, rng.randint(1, 3), rng.randint(0, 2), [64],
                                   quirks=(kind == "quirk"))
@@ -134,7 +136,8 @@ def gen(seed, n_expr):
                     nodes = sorted(e.atoms(PoolSum), key=str)
                     if nodes and rng.random() < 0.3:
                         params.append([M.ser(rng.choice(nodes)), ["S", "zz"]])
-                cases.append({"expr": tree, "op": op, "params": params, "kind": kind, "text": str(e)[:200]})
+                cases.append({"expr": tree, "op": op, "params": params, "kind": kind, "text": str(e)[:200],
+                              "supplier": rng.choice(sorted(M.SUPPLIERS))})
             n_done += 1
         except M.Unsupported:
             continue
@@ -181,9 +184,12 @@ def singular(e):
 
 def compare(case, model_txt):
     """-> None if implementation and model agree, else a description"""
-    e = M.build(case["expr"])
     op = case["op"]
     try:
+        problems = []
+        e = M.build(case["expr"], case.get("supplier"), problems)
+        if problems:
+            return "constructor: " + problems[0]
         got = run_impl(op, e, case["params"])
     except Exception as exc:  # noqa: BLE001
         return f"implementation raised {type(exc).__name__}: {exc}"
@@ -243,7 +249,8 @@ def main():
             elif why:
                 c2 = dict(c)
                 c2["model_output"] = res[i]
-                failures.append({"signature": "model_mismatch_" + c["op"],
+                sig = "constructor_pools_wrong" if why.startswith("constructor: ") else "model_mismatch_" + c["op"]
+                failures.append({"signature": sig,
                                  "what": f"PoolSum model and implementation disagree on {c['text']}: {why}",
                                  "case": c2})
             elif len(samples) < 6 and c["op"] not in [s["op"] for s in samples]:
